@@ -591,9 +591,55 @@ class C11(Prop):
     def budget_s(self, tier: str) -> float:
         return 200 if tier == "quick" else 3000
 
+    def enumerate(self, tier: str, disabled: frozenset[str]):
+        """A partial that cannot be loaded (in a branch the data never takes) next to partials that can: the helper
+        methods either refuse (raise) or give the complete report - what this render looks up is known by
+        construction."""
+        parts = {"p": "{{ pv | upcase }}{% assign q = 1 %}{% render 'r', x: pw %}", "r": "{{ x | downcase }}{{ rv }}",
+                 "base": "{% block b %}{{ bv }}{% endblock %}"}
+        for gone in ("{% include 'gone' %}", "{% render 'gone' %}", "{% include nosuch_name %}",
+                     "{% include 'gone' for xs %}"):
+            for rest, vars_, filters, tags in (
+                ("{% include 'p' %}{{ a | size }}", {"a", "pv", "pw", "rv"}, {"upcase", "downcase", "size"},
+                 {"include", "assign", "render"}),
+                ("{% render 'r', x: a %}", {"a", "rv"}, {"downcase"}, {"render"}),
+                ("{% for i in xs %}{% include 'p' %}{% endfor %}", {"xs", "pv", "pw", "rv"}, {"upcase", "downcase"},
+                 {"for", "include", "assign", "render"}),
+            ):
+                yield {"kind": "missing", "src": "{% if nosuch_flag %}" + gone + "{% endif %}" + rest,
+                       "templates": parts, "vars": sorted(vars_ | {"nosuch_flag"}), "filters": sorted(filters),
+                       "tags": sorted(tags | {"if"})}
+
+    def _check_missing(self, case: Any) -> Result:
+        res = Result()
+        res.labels.append("missing-partial")
+        res.nontrivial = True
+        env = make_env(dict(case["templates"]), shopify=True)
+        tmpl = env.from_string(case["src"])
+        out = tmpl.render(xs=[1])  # the branch with the missing partial is not taken: the render succeeds
+        res.evaluations = 1
+        for helper, want in (("variables", case["vars"]), ("global_variables", [v for v in case["vars"]]),
+                             ("filter_names", case["filters"]), ("tag_names", case["tags"])):
+            for mode in ("sync", "async"):
+                res.evaluations += 1
+                try:
+                    got = getattr(tmpl, helper)() if mode == "sync" else run_coro(getattr(tmpl, helper + "_async")())
+                except LiquidError:
+                    res.labels.append("missing-partial:refused")
+                    continue
+                lacking = sorted(set(want) - set(got))
+                if lacking:
+                    res.fail("helpers", f"incomplete-report-with-missing-partial:{helper}",
+                             f"{helper}{'_async' if mode == 'async' else ''}() returned {sorted(got)!r} without raising, "
+                             f"but the render (output {out!r}) also uses {lacking!r}; src={case['src']!r} "
+                             f"templates={case['templates']!r}")
+        return res
+
     # ------------------------------------------------------------------
 
     def check(self, case: Any, disabled: frozenset[str] = frozenset()) -> Result:  # noqa: PLR0912, PLR0915
+        if case.get("kind") == "missing":
+            return self._check_missing(case)
         res = Result()
         prog = case["prog"]
         lay = case["layout"]
@@ -880,6 +926,8 @@ class C11(Prop):
                          f"{name}()={sorted(got)!r} {name}_async()={sorted(got_async)!r}; {ctxinfo}")
 
     def sample(self, case: Any) -> Any:
+        if case.get("kind") == "missing":
+            return {"kind": "missing", "src": case["src"]}
         lay = case["layout"]
         return {"src": to_source(case["prog"]["main"], lay)[:300],
                 "templates": {k: to_source(v, lay)[:120] for k, v in case["prog"]["templates"].items()},
